@@ -383,7 +383,8 @@ def scr(chk, prog, ln, m):
             return EffectResult(Agg(("adt", "core::result::Result"), 0, [size]), havoc=False)
         return None
     w = ld.make_loader_walker(prog, ln, opaque=[ln.REFRESH, ln.RAMMUT, ln.GETPAGE] + CG + [p for p in prog.fns if "SliceIndex" in p or "index_mut" in p], extra_hook=extra)
-    st = ld.emulator_state(w, prog, ln, m)
+    # the receiving machine is in an arbitrary state: halted, EI pending, interrupts enabled
+    st = ld.emulator_state(w, prog, ln, m, cpu_overrides={"halted": tm.sym("WAS_HALTED", 1), "skip_interrupt": tm.sym("WAS_SKIP", 1)})
     init_emu = st.store[ld.EMU]
     rs = ld.run_loader(prog, ln, w, "screenshot::scr::load", st)
     key = "scr::load/%s" % m
@@ -406,6 +407,18 @@ def scr(chk, prog, ln, m):
             rf = [e for e in r.trace if e.path == ln.REFRESH]
             rd = [e for e in r.trace if e.path == ld.READ_EXACT]
             chk.check(len(rf) == 1 and len(rd) == 1, "T-PAIR/%s/refresh" % key, "a successful SCR load reads once and refreshes the screen")
+            # the loader parks the CPU in a loop it writes itself; nothing of the program that ran before may run behind
+            # the picture: not halted (a halted CPU leaves the loop's first byte at the next interrupt), no pending
+            # prefix / EI, and interrupts disabled (otherwise the old program's handler keeps running every frame)
+            fin = ld.final_cpu(prog, ln, r)
+            for f, nice in (("halted", "HALT state"), ("skip_interrupt", "EI-pending state"), ("IFF1", "interrupt enable")):
+                v = fin[f]
+                chk.check(isinstance(v, T) and v.is_const() and v.val == 0, "T-MUSTDEF/%s/%s" % (key, f),
+                          "%s of the receiving CPU survives the SCR load (%s): the machine does not stay parked in the loader's loop and what runs can overwrite the picture" % (nice, v))
+            ap = fin["active_prefix"]
+            PF = prog.adt_path("rustzx_z80", "Prefix")
+            chk.check(isinstance(ap, Agg) and prog.variant_names(PF)[ap.variant] == "None", "T-MUSTDEF/%s/active_prefix" % key,
+                      "a pending DD/FD/ED prefix of the receiving CPU survives the SCR load (%s)" % (getattr(ap, "name", ap),))
     chk.check(ok_paths >= 1, "T-TABLE/%s/success-path" % key, "no successful SCR path")
 
 
